@@ -60,6 +60,10 @@ def main():
     allchecks = [c["property_id"] for c in man["checks"]]
     todo = checks or allchecks
     rc, out = sh(f"git -C /repo apply {patch}")
+    evdir = os.path.join(VERIF, "evidence")
+    evbak = f"/tmp/evidence_backup_{seed_id}"
+    shutil.rmtree(evbak, ignore_errors=True)
+    shutil.copytree(evdir, evbak)
     try:
         for c in todo:
             t0 = time.time()
@@ -70,6 +74,10 @@ def main():
             print(c, "exit", rc, viol[:1])
     finally:
         sh("git -C /repo checkout -- .")
+        # evidence files must come from runs against the unchanged tree: restore them
+        shutil.rmtree(evdir, ignore_errors=True)
+        shutil.copytree(evbak, evdir)
+        shutil.rmtree(evbak, ignore_errors=True)
         # restore Generated.lean to the clean tree's
         sh("/venv/bin/python harness/extract.py", cwd=VERIF)
     meta["caught_by"] = [c for c, r in meta["checks"].items() if r["exit"] == 1]
